@@ -243,6 +243,16 @@ func Generate(r *rng.R, mode int) *Case {
 		c.tag("tls-listener")
 		if port == 443 {
 			c.tag("tls-listener-on-443")
+			// the HTTPS servers of a port shared with a TLS listener listen on a unix socket: per IP family
+			if c.Tags["https-listener"] > 0 {
+				fam := "dual"
+				for _, f := range []string{"ipv4", "ipv6"} {
+					if c.Tags[f] > 0 {
+						fam = f
+					}
+				}
+				c.tag("https-tls-share-port-" + fam)
+			}
 		}
 	}
 	gwName := rng.Pick(r, []string{"gw", "gw.v1", "g--w"})
